@@ -2,7 +2,7 @@
 from vlib import repairflow as rf
 from vlib.props import c08
 
-RULE = ("Flow A: the repair machine on every A/C/G/T string of length k..5 (7) x generated order-1 and order-2 graphs x starts x "
+RULE = ("Flow A: the repair machine on every A/C/G/T string of length k..5 (6) x generated order-1 and order-2 graphs x starts x "
         "check in {none, right, wrong} x indel on/off x heap in {unrestricted, 1, 3}, with CleanLeftAlone, SortedUnique and "
         "CheckConsistent as invariants, plus the edited-walk scope of C08; every exported case is replayed into repair_dna (equal "
         "result inherits TLC's verdict, a differing one is judged on its own by Trace_Repair from the recorded output). Flow B: "
